@@ -2519,7 +2519,14 @@ impl<'a> Socket<'a> {
             // now for whatever reason (like zero window), this avoids an
             // infinite polling loop where `poll_at` returns `Now` but `dispatch`
             // can't actually do anything.
-            self.timer.set_for_idle(cx.now(), self.keep_alive);
+            if self.remote_win_len == 0 && !self.tx_buffer.is_empty() {
+                // Nothing can be retransmitted into a closed window, and nothing
+                // would rearm the timer: probe the window instead.
+                let delay = self.rtte.retransmission_timeout();
+                self.timer.set_for_zero_window_probe(cx.now(), delay);
+            } else {
+                self.timer.set_for_idle(cx.now(), self.keep_alive);
+            }
 
             // Inform RTTE, so that it can avoid bogus measurements.
             self.rtte.on_retransmit();
